@@ -1576,7 +1576,12 @@ func (rl *Shell) editAndExecuteCommand() {
 	if err != nil || (len(edited) == 0 && len(buffer) != 0) {
 		rl.History.SkipSave()
 
-		errStr := strings.ReplaceAll(err.Error(), "\n", "")
+		// The editor might have run fine and left an empty file.
+		errStr := "empty buffer"
+		if err != nil {
+			errStr = strings.ReplaceAll(err.Error(), "\n", "")
+		}
+
 		changeHint := fmt.Sprintf(color.FgRed+"Editor error: %s", errStr)
 		rl.Hint.SetTemporary(changeHint)
 
@@ -1598,7 +1603,12 @@ func (rl *Shell) editCommandLine() {
 	if err != nil || (len(edited) == 0 && len(buffer) != 0) {
 		rl.History.SkipSave()
 
-		errStr := strings.ReplaceAll(err.Error(), "\n", "")
+		// The editor might have run fine and left an empty file.
+		errStr := "empty buffer"
+		if err != nil {
+			errStr = strings.ReplaceAll(err.Error(), "\n", "")
+		}
+
 		changeHint := fmt.Sprintf(color.FgRed+"Editor error: %s", errStr)
 		rl.Hint.SetTemporary(changeHint)
 
